@@ -122,7 +122,7 @@ def check_gtf(chk, gm, fname, fai, desc, wit):
 def run(chk, scratch):
     thorough = chk.tier == "thorough"
     chk.rule = ("CLI runs with and without annotation over model-construction strategies x data types on noisy multi-chromosome worlds (hidden isoforms, "
-                "reads extending beyond genes, shifted junctions, multi-mappers, unannotated loci inside long introns of genes with lower-case / upper-case ids); every transcript/gene of both output GTFs judged against the structural rules, "
+                "reads extending beyond genes, shifted junctions, multi-mappers, references that are partly IsoQuant products (consecutive reserved id numbers), unannotated loci inside long introns of genes with lower-case / upper-case ids); every transcript/gene of both output GTFs judged against the structural rules, "
                 "reference ids against the input GTF, extended annotation against reference + novel models. non-trivial = distinct (exon count, known/nic/nnic, "
                 "strand, file) tuples")
     jobs = []
@@ -150,17 +150,32 @@ def run(chk, scratch):
         w = world2.split_locus_world(seed) if seed >= 9000 else noisy_world(seed)
         if seed % 2 == 1 and seed < 9000:
             world2.strip_tails(w)          # polyA-trimmed data: no polyA requirement, ends defined by read starts/ends only
-        pipeline.write_world(w, d)
-        worlds[seed] = (d, w)
+        # even seeds: the reference is partly an IsoQuant product (extended annotation of an earlier run fed back): runs of CONSECUTIVE
+        # transcriptN.<chr>.nnic / novel_gene_<chr>_N numbers are reserved on two chromosomes
+        id_map = {}
+        if seed % 2 == 0 and seed < 9000:
+            for chrom in w.chrom_order[:2]:
+                n = 1
+                for g in w.genes:
+                    if g.chrom != chrom or not g.transcripts:
+                        continue
+                    n += 1
+                    if len(id_map) % 3 == 0:
+                        id_map[g.id] = "novel_gene_%s_%d" % (chrom, n)
+                    for t in g.transcripts:
+                        n += 1
+                        id_map[t.id] = "transcript%d.%s.%s" % (n, chrom, "nnic" if n % 3 else "nic")
+        pipeline.write_world(w, d, id_map=id_map)
+        worlds[seed] = (d, w, id_map)
 
     def one(job):
         seed, st, dt, annotated = job
-        d, w = worlds[seed]
+        d, w, _ = worlds[seed]
         out = os.path.join(d, "out_%s_%s_%s" % (st, dt, annotated))
         ev = out + "_ev"
         # every other job switches the polyA requirement off, so that loci seen from several regions without polyA evidence also yield models
         pr = ["--polya_requirement", "never"] if (seed + len(st) + len(dt)) % 2 == 0 else []
-        r = pipeline.run(d, out, data_type=dt, threads=2, annotated=annotated, home=out + "_home",
+        r = pipeline.run(d, out, data_type=dt, threads=1 + (seed + len(st)) % 2, annotated=annotated, home=out + "_home",
                          extra=["--model_construction_strategy", st, "--report_novel_unspliced", "true"] + pr, mon=["split"], events=ev)
         n_split = sum(1 for e in runner.load_events(ev) if e["k"] == "split" and len(e["out"]) > 1)
         r["n_split"] = n_split
@@ -169,7 +184,7 @@ def run(chk, scratch):
     novel_total = 0
     for job, out, r in runner.parallel(one, jobs, workers=8):
         seed, st, dt, annotated = job
-        d, w = worlds[seed]
+        d, w, id_map = worlds[seed]
         desc = "world=%d strategy=%s data_type=%s annotated=%s" % (seed, st, dt, annotated)
         wit = {"world_seed": seed, "strategy": st, "data_type": dt, "annotated": annotated}
         if r["rc"] is None:
@@ -183,16 +198,16 @@ def run(chk, scratch):
         fai = parse.read_fai(os.path.join(d, "g.fa.fai"))
         models = o.models()
         total += check_gtf(chk, models, "transcript_models.gtf", fai, desc, wit)
-        ref = {t.id: t for t in w.all_transcripts()} if annotated else {}
+        ref = {id_map.get(t.id, t.id): t for t in w.all_transcripts()} if annotated else {}
         for tid, t in models.transcripts.items():
             kind = "known" if tid in ref else ("nic" if tid.endswith(".nic") else "nnic" if tid.endswith(".nnic") else "other")
             chk.nontrivial.add((min(len(t["exons"]), 8), kind, t["strand"], "models"))
             if tid in ref:
                 rt = ref[tid]
-                if (t["chr"], t["strand"], tuple(sorted(t["exons"])), t["gene"]) != (rt.chrom, rt.strand, tuple(rt.exons), rt.gene_id):
+                if (t["chr"], t["strand"], tuple(sorted(t["exons"])), t["gene"]) != (rt.chrom, rt.strand, tuple(rt.exons), id_map.get(rt.gene_id, rt.gene_id)):
                     chk.violation("reference-transcript-altered:transcript_models.gtf",
                                   "%s: %s printed as %s%s %s gene %s, reference %s%s %s gene %s" %
-                                  (desc, tid, t["chr"], t["strand"], sorted(t["exons"])[:3], t["gene"], rt.chrom, rt.strand, rt.exons[:3], rt.gene_id), wit)
+                                  (desc, tid, t["chr"], t["strand"], sorted(t["exons"])[:3], t["gene"], rt.chrom, rt.strand, rt.exons[:3], id_map.get(rt.gene_id, rt.gene_id)), wit)
             else:
                 novel_total += 1
         if annotated:
@@ -203,7 +218,7 @@ def run(chk, scratch):
                 if t is None:
                     chk.violation("reference-transcript-missing:extended_annotation.gtf", "%s: %s absent" % (desc, tid), wit)
                     continue
-                if (t["chr"], t["strand"], tuple(sorted(t["exons"])), t["gene"]) != (rt.chrom, rt.strand, tuple(rt.exons), rt.gene_id):
+                if (t["chr"], t["strand"], tuple(sorted(t["exons"])), t["gene"]) != (rt.chrom, rt.strand, tuple(rt.exons), id_map.get(rt.gene_id, rt.gene_id)):
                     chk.violation("reference-transcript-altered:extended_annotation.gtf", "%s: %s printed as %s%s %s" %
                                   (desc, tid, t["chr"], t["strand"], sorted(t["exons"])[:3]), wit)
             novel_models = {tid: t for tid, t in models.transcripts.items() if tid not in ref}
